@@ -123,7 +123,8 @@ func ZZ_C16_api_calls() {
 
 	a := &OpenAPI{ClientSet: zzClientSet{}, IdempotentKeyGen: zzGen(), RateLimiter: &RateLimiter{}, Tracer: noop.NewTracerProvider().Tracer("zz")}
 	api := zz.Shard(7) // one shard per API entry point
-	create := zzCreateOpts("p", 1)
+	// concrete parameters: how parameters map to tokens is decided by ZZ_C16_create_*; here the calls are the subject
+	create := &CreateNetworkInterfaceOptions{NetworkInterfaceOptions: &NetworkInterfaceOptions{VSwitchID: "vsw-1", SecurityGroupIDs: []string{"sg-1"}, IPCount: 1, Tags: map[string]string{"creator": "x"}}}
 	n := &NetworkInterfaceOptions{NetworkInterfaceID: "eni-1", IPCount: zz.IntRange("ipcount", 1, 3), IPv6Count: zz.IntRange("ipv6count", 1, 3)}
 	assign4 := &AssignPrivateIPAddressOptions{NetworkInterfaceOptions: n}
 	assign6 := &AssignIPv6AddressesOptions{NetworkInterfaceOptions: n}
